@@ -168,7 +168,7 @@ fn random_case(r: &RandRecipe) -> Option<GradCase> {
         _ => (Softmax, vec![mk(d, VKind::Small, 1, true)]),
     };
     let ts: Vec<T> = leaves.iter().map(|l| T::from_f64(&l.dims, &l.vals)).collect();
-    let mut st = refmodel::model::RefState::new(0);
+    let mut st = refmodel::model::RefState::forward_only();
     let hs: Vec<usize> = leaves.iter().map(|l| st.new_leaf(&l.dims, &l.vals, false)).collect();
     let out = st.eval(&op, &hs).ok()?;
     if !in_domain(&op, &ts.iter().collect::<Vec<_>>()) {
@@ -327,7 +327,7 @@ pub fn campaigns(ctx: &Ctx) -> Stats {
             let passes = 1 + (i / ns / no) as usize;
             let vals = gen_vals(i, numel(d), VKind::PosInt);
             let leaf = LeafSpec { dims: d.clone(), vals, tracked: true };
-            let mut st = refmodel::model::RefState::new(0);
+            let mut st = refmodel::model::RefState::forward_only();
             let h = st.new_leaf(&leaf.dims, &leaf.vals, false);
             let out = st.eval(&op, &[h, h]).ok()?;
             Some(GradCase { op, leaves: vec![leaf.clone(), leaf], seed: Some(distinct_seed(out.numel())), uses: 1, passes, same_operand: true, detached_clone: 0 })
@@ -339,7 +339,7 @@ pub fn campaigns(ctx: &Ctx) -> Stats {
             let which = 1 + (i / ns / no) as u8;
             let vals = gen_vals(i, numel(d), VKind::PosInt);
             let leaf = LeafSpec { dims: d.clone(), vals, tracked: true };
-            let mut st = refmodel::model::RefState::new(0);
+            let mut st = refmodel::model::RefState::forward_only();
             let h = st.new_leaf(&leaf.dims, &leaf.vals, false);
             let out = st.eval(&op, &[h, h]).ok()?;
             Some(GradCase { op, leaves: vec![leaf.clone(), leaf], seed: Some(distinct_seed(out.numel())), uses: 1, passes: 1, same_operand: false, detached_clone: which })
